@@ -159,11 +159,18 @@ def classify(n, values, clause):
     return f"normalize:{clause}"
 
 
+PER_KEY: dict = {}
+
+
 def report(res, n, values, matrix, bad, origin):
     for clause, detail in bad:
         if clause == "out-of-scope":
             continue
         key = classify(n, values, clause)
+        PER_KEY[key] = PER_KEY.get(key, 0) + 1
+        res.count(f"violations:{key}")
+        if PER_KEY[key] > 3:         # keep room in the (capped) violation list for other failing sites
+            break
         res.violation(f"normalisation clause failed: {clause} ({detail})",
                       {"kind": "values", "n": n, "values": [float(x) for x in values],
                        "values_exact": [rs(x) for x in values],
@@ -254,10 +261,11 @@ def run(tier: str, budget: Budget, rnd, arg) -> StreamResult:
     from incomplete_cooperative.generators import GENERATORS
 
     res = StreamResult("normalize")
+    PER_KEY.clear()
     script = Script()
     float_checks = []        # (line_no, real normalised values, ctx)
-    n_exact = 300 if tier == "quick" else 4000
-    seeds_per = 2 if tier == "quick" else 10
+    n_exact = 1200 if tier == "quick" else 40000
+    seeds_per = 4 if tier == "quick" else 60
     seen = set()
 
     # ---------------------------------------------------------------- exact sub-stream
